@@ -30,7 +30,7 @@ pub fn judge(p: &Pos, d: u8, k: u64, stats: &mut Stats, gen_kind: &str) -> Verdi
 /// ("at every point of the search" includes searches that are not the first of their process).
 pub fn judge_after(earlier: &[(Pos, u8)], p: &Pos, d: u8, k: u64, stats: &mut Stats, gen_kind: &str) -> Verdict {
     let b = eng::to_board(p);
-    let fen = p.fen(0, 1);
+    let fen = eng::fen(&p);
     let mut searcher = Searcher::new();
     let mut earlier_nodes: Vec<u64> = Vec::new();
     for (q, dq) in earlier {
@@ -43,7 +43,7 @@ pub fn judge_after(earlier: &[(Pos, u8)], p: &Pos, d: u8, k: u64, stats: &mut St
         }
         earlier_nodes.push(searcher.verif_nodes());
     }
-    let earlier_desc: Vec<Value> = earlier.iter().zip(earlier_nodes.iter()).map(|((q, dq), n)| json!({"fen": q.fen(0, 1), "depth": dq, "nodes": n})).collect();
+    let earlier_desc: Vec<Value> = earlier.iter().zip(earlier_nodes.iter()).map(|((q, dq), n)| json!({"fen": eng::fen(&q), "depth": dq, "nodes": n})).collect();
     searcher.verif_set_node_limit(Some(k));
     searcher.verif_set_hard_cap(Some(k + HARD));
     let r = std::panic::catch_unwind(std::panic::AssertUnwindSafe(|| searcher.find_best_move(&b, d, None)));
@@ -181,7 +181,7 @@ fn part_blackbox(bytes: &[u8], stats: &mut Stats) -> Verdict {
         stats.exclude("terminal root");
         return Ok(());
     }
-    let fen = p.fen(0, 1);
+    let fen = eng::fen(&p);
     let t_ms = *s.pick(&[0u64, 1, 2, 5, 10, 20, 40, 80, 150, 300]);
     let white = p.stm == refchess::Color::W;
     let go = match s.below(4) {
